@@ -35,12 +35,36 @@ var (
 
 func loadForms(repo string) (*formsDB, error) {
 	dbOnce.Do(func() {
-		_, f, err := parseFile(filepath.Join(repo, "x86", "zoptab.go"))
-		if err != nil {
-			dbErr = err
-			return
+		// the enum blocks (oprndtype…, implreg…, sffxscls…) are looked for in x86/zoptab.go first and then in every
+		// other non-test file of the package: moving them to another file is a harmless refactoring
+		files := []string{filepath.Join(repo, "x86", "zoptab.go")}
+		if more, gerr := filepath.Glob(filepath.Join(repo, "x86", "*.go")); gerr == nil {
+			sort.Strings(more)
+			for _, m := range more {
+				if m != files[0] && !strings.HasSuffix(m, "_test.go") {
+					files = append(files, m)
+				}
+			}
 		}
-		names, vals := constBlockInts(f)
+		var names []string
+		vals := map[string]int64{}
+		for i, path := range files {
+			_, f, err := parseFile(path)
+			if err != nil {
+				if i == 0 && len(files) == 1 {
+					dbErr = err
+					return
+				}
+				continue
+			}
+			ns, vs := constBlockInts(f)
+			for _, n := range ns {
+				if _, dup := vals[n]; !dup {
+					names = append(names, n)
+					vals[n] = vs[n]
+				}
+			}
+		}
 		d := &formsDB{byOpcode: map[string][]int{}, oprndName: map[uint8]string{}, implName: map[uint8]string{}, sffxCls: map[uint8]string{}}
 		for _, n := range names {
 			switch {
